@@ -64,6 +64,10 @@ def gen_form(rng, V, kind=None):
     if k == 'set!':
         return k, f'(set! x {a})', f'(set [x {a}])'
     if k == 'defun':
+        if rng.random() < 0.3:
+            # a body that is a single literal (a string, a number) is the function's value
+            lit = rng.choice(['", "', '"ns"', '7', '"doc"'])
+            return k, f'(do (defun f9 [p] {lit}) (list (f9 1) (f9 {V})))', f'(do (define f9 (fn [p] {lit})) (list (f9 1) (f9 {V})))'
         return k, f'(do (defun f9 [p q] {a} (+ p q {V})) (f9 1 2))', f'(do (define f9 (fn [p q] {a} (+ p q {V}))) (f9 1 2))'
     if k == 'car':
         return k, f'(car (list {a} 2))', f'(first (list {a} 2))'
